@@ -1,8 +1,18 @@
 /-
 C01 — SyncRing is a linearizable bounded MPMC FIFO queue.
-ONLY property theorems and non-vacuity examples live here.
+ONLY property theorems and non-vacuity examples live here; helper lemmas are in
+`Golib/Proof/C01*.lean`, the model in `Golib/Model/C01Ring.lean`.
+
+`Ghost c` = the machine `Conc` of DESIGN §5: unbounded (ghost) tickets (`c.M = 0`),
+capacity a power of two ≥ 2 (`ghost_pow`).  Every theorem quantifies over EVERY schedule
+`σ : List Nat` (thread ids), every number of threads, every program assignment `progs`,
+every capacity `2^k` (k ≥ 1) and every initial rotation `r` of the ring (`initAt c r` = the
+empty ring after `r` push/pop pairs; an initial fill is a sequential prefix of `σ`).
+The 32-bit machine `Conc32` (`c.M = 2^32`) is what the compiled driver runs against the
+real code; F12 (Findings/C01_ABA.lean) shows the theorems need BoundedLag there.
 -/
 import Golib.Proof.C01Facts
+import Golib.Proof.C01Inv
 
 namespace Golib.C01
 
@@ -14,5 +24,57 @@ theorem c01_source_order :
     soloSrc cfg32x2 (init cfg32x2 [[.isEmpty]]) 4 = Gen.C01.isEmptyOps ∧
     soloSrc cfg32x2 (init cfg32x2 [[.isFull]]) 4 = Gen.C01.isFullOps :=
   ⟨facts_push, facts_pop, facts_len, facts_isEmpty, facts_isFull⟩
+
+/-- `c01_inv`: in every reachable state every slot is in exactly one of the phases
+free / being written / stored / being read for one position of its residue class, with
+its sequence number determined by that phase (`Inv.phases`); `head ≤ tail ≤ head + cap`;
+a thread between its CAS and its store owns its position exclusively (the counts in
+`Phase`); every thread's stale observations are lower bounds (`Inv.locals`); no thread
+ever indexed outside the slot array. -/
+theorem c01_inv (k : Nat) (hk : 1 ≤ k) (r : Nat) (progs : List (List Call)) (σ : List Nat) :
+    let c : Cfg := { M := 0, cap := 2 ^ k }
+    let s := (run c (initAt c r progs) σ).1
+    Inv c s ∧ s.head ≤ s.tail ∧ s.tail ≤ s.head + c.cap ∧ s.crashed = false := by
+  have g := ghost_pow k hk
+  have hI := inv_run g (inv_initAt g r progs) σ
+  exact ⟨hI, hI.head_le_tail, hI.tail_le, hI.not_crashed⟩
+
+/-- `c01_race_free`: in no reachable state are two different threads both about to make
+a plain (non-atomic) access to the `value` field of the same slot — reads included. -/
+theorem c01_race_free (k : Nat) (hk : 1 ≤ k) (r : Nat) (progs : List (List Call)) (σ : List Nat)
+    (i j : Nat) (a b : Thread) (slot : Nat) :
+    let c : Cfg := { M := 0, cap := 2 ^ k }
+    let s := (run c (initAt c r progs) σ).1
+    i ≠ j → s.threads[i]? = some a → s.threads[j]? = some b →
+      ¬ (plainSlot c a.pc = some slot ∧ plainSlot c b.pc = some slot) := by
+  intro c s hij hi hj ⟨ha, hb⟩
+  have g := ghost_pow k hk
+  exact no_conflict g (inv_run g (inv_initAt g r progs) σ) hij hi hj ha hb
+
+/-- `c01_len_range`: whatever two counter values `Len()` happened to load — on the ghost
+machine and on the 32-bit machine alike — its result lies in `[0, Cap()]`. -/
+theorem c01_len_range (c : Cfg) (t h : Nat) : 0 ≤ c.lenOf t h ∧ c.lenOf t h ≤ c.cap :=
+  ⟨Nat.zero_le _, lenOf_le_cap c t h⟩
+
+/-- `c01_len_exact_quiescent`: in every reachable state the counters differ by the number
+of stored elements `tail − head ≤ cap`, and `Len/IsEmpty/IsFull` evaluated on the current
+counters (which is what they load when no other thread moves) are exact. -/
+theorem c01_len_exact_quiescent (k : Nat) (hk : 1 ≤ k) (r : Nat) (progs : List (List Call))
+    (σ : List Nat) :
+    let c : Cfg := { M := 0, cap := 2 ^ k }
+    let s := (run c (initAt c r progs) σ).1
+    c.lenOf s.tail s.head = s.tail - s.head ∧
+      ((s.head == s.tail) = true ↔ s.tail - s.head = 0) ∧
+      ((c.sub s.tail s.head == c.cap) = true ↔ s.tail - s.head = c.cap) := by
+  have g := ghost_pow k hk
+  exact len_exact g (inv_run g (inv_initAt g r progs) σ)
+
+/-- Non-vacuity: a reachable state of the capacity-2 ring started at rotation 7 with one
+slot being written (thread 0 past its CAS) and one stored element being read. -/
+example :
+    let c : Cfg := { M := 0, cap := 2 }
+    let s := (run c (initAt c 7 [[.push 5], [.push 6], [.pop]]) [1, 1, 1, 1, 1, 0, 0, 0, 2, 2, 2]).1
+    s.head = 8 ∧ s.tail = 9 ∧ s.slots.map (·.seq) = [8, 8] ∧
+      cW s.threads 8 = 1 ∧ cR s.threads 7 = 1 := by decide
 
 end Golib.C01
